@@ -79,22 +79,27 @@ theorem inv_rdH {s s' : St} {t : Tid} {e : Ev} {k : Nat} {g : Option Ver} (hi : 
     · exact Or.inr ⟨sv_pub s x, hi.h.sidesOk x (held_not_det hi.l hc)⟩
     · exact Or.inl h1
   case ldCtl x =>
-    simp [stepRdH] at hs
-    obtain ⟨l, hl, rfl⟩ := hs
-    obtain ⟨hd, hsm, c, hc, hc'⟩ := LR.lrRd_spec hl
-    refine inv_move hi hd hsm rfl rfl rfl rfl rfl rfl (fun _ _ h => Or.inl h) rfl (by simp [hc', lk, Pc.cls]) ?_ (Or.inl hw)
-      ?_ ?_ ?_ ?_ ?_ ?_ <;> cow_side hp
+    cases g with
+    | none => simp [stepRdH] at hs
+    | some v =>
+      simp [stepRdH] at hs
+      obtain ⟨l, hl, rfl⟩ := hs
+      obtain ⟨hd, hsm, c, hc, hc'⟩ := LR.lrRd_spec hl
+      refine inv_move hi hd hsm rfl rfl rfl rfl rfl rfl (fun _ _ h => Or.inl h) rfl (by simp [hc', lk, Pc.cls]) ?_ (Or.inl hw)
+        ?_ ?_ ?_ ?_ ?_ ?_ <;> cow_side hp
+
+theorem inv_rdP {s s' : St} {t : Tid} {e : Ev} {k : Nat} {v : Ver} (hi : Inv s) (hp : s.pc t = .rdP k v)
+    (hs : step s t e = some s') : Inv s' := by
+  simp only [step, hp] at hs
+  have hk : lk (s.lr.pc t) = .hold := by rw [hi.l.link t, hp]; rfl
+  have hw := wr_none hi (t := t) (by rw [hp]; simp [Pc.cls])
+  cases e <;> (try (simp [stepRdP] at hs; done))
   case lr e =>
-    cases e <;> simp [stepRdH] at hs
-    case dec c old =>
-      cases g with
-      | none => simp at hs
-      | some v =>
-        simp at hs
-        obtain ⟨l, hl, rfl⟩ := hs
-        obtain ⟨hd, hsm, hc⟩ := LR.lrRel_spec hk hl
-        refine inv_move hi hd hsm rfl rfl rfl rfl rfl rfl (fun _ _ h => Or.inl h) rfl (by simp [hc, lk, Pc.cls]) ?_ (Or.inl hw)
-          ?_ ?_ ?_ ?_ ?_ ?_ <;> cow_side hp
+    cases e <;> simp [stepRdP] at hs
+    obtain ⟨l, hl, rfl⟩ := hs
+    obtain ⟨hd, hsm, hc⟩ := LR.lrRel_spec hk hl
+    refine inv_move hi hd hsm rfl rfl rfl rfl rfl rfl (fun _ _ h => Or.inl h) rfl (by simp [hc, lk, Pc.cls]) ?_ (Or.inl hw)
+      ?_ ?_ ?_ ?_ ?_ ?_ <;> cow_side hp
 
 theorem inv_rdD {s s' : St} {t : Tid} {e : Ev} {k : Nat} {v : Ver} (hi : Inv s) (hp : s.pc t = .rdD k v)
     (hs : step s t e = some s') : Inv s' := by
@@ -493,6 +498,7 @@ theorem inv_step {s s' : St} {t : Tid} {e : Ev} (hi : Inv s) (hs : step s t e = 
   | idle => exact inv_idle hi hp hs
   | rdA k => exact inv_rdA hi hp hs
   | rdH k g => exact inv_rdH hi hp hs
+  | rdP k v => exact inv_rdP hi hp hs
   | rdD k v => exact inv_rdD hi hp hs
   | lkCalled => exact inv_lkCalled hi hp hs
   | lkA => exact inv_lkA hi hp hs
